@@ -4,6 +4,15 @@ C17 — decoding is a pure function of the value and the target type.
 Property theorems about `Uniflow.Group.decode` (model of `(*DecoderGroup).Decode`).
 Helper lemmas are in this file's first section only because they are short; the property
 statements are the `theorem C17.*` at the end.
+
+Decoding must also leave its *source* as it was – otherwise the same source object holds another value at the next
+decode. The group model has no source state (a decoder is a function `σ → R α`), so this is a separate statement:
+Props/C17Source.lean proves over the heap model of uniflow's maps (Model/MapHeap.lean) that the working copy the
+repaired struct decoder takes, `source.Immutable().Mutable()`, can be consumed (Delete, Clear, anything) without the
+source's Go map changing, whether the source is a mutable or an immutable map; the harness (harness/c17/mutsrc.go,
+and the C16 oracle on documents rebuilt with mutable maps) decodes mutable sources twice and compares the source with a
+snapshot. Before the commit "fix: decoding never modifies its source map" a decode emptied a mutable map
+(witness corpus/C17/01-decode-destroys-mutable-source.ops).
 -/
 import Uniflow.Model.Group
 import Uniflow.Generated.Decoders
